@@ -3,7 +3,8 @@
      ZSTD_flushStream / ZSTD_endStream (no input argument: inBuffer_forEndFlush decides which input buffer the call
      presents, ZSTD_keepCallerPosition gives back to stableIn_notConsumed what the call could not compress of the bytes
      it went back over), ZSTD_CCtx_reset(session_only) as far as the buffering layer sees it, and the input-buffer half
-     of ZSTD_checkBufferStability (a frame started by a wrapper in stable-input mode expects the fabricated {NULL,0,0}).
+     of ZSTD_checkBufferStability (a frame started by a wrapper in stable-input mode records the fabricated {NULL,0,0};
+     since fix 9a6b24a that record accepts the first real buffer).
    Built on CStreamModel.kstep (= ZSTD_compressStream2 itself); the block compressor stays a section variable.
    What the caller holds besides the context is part of the state: the position of its ZSTD_inBuffer in the one input
    array X, and how far the last call presented that array (expectedInBuffer.size).
@@ -14,7 +15,7 @@ From ZV.Stream Require Import DStreamModel CStreamModel.
 Import ListNotations.
 Local Open Scope N_scope.
 
-Inductive aerr := AK (e : kerr) | AStability.       (* AStability: ZSTD_checkBufferStability, input half *)
+Inductive aerr := AK (e : kerr) | AStability.       (* AStability: ZSTD_checkBufferStability, input half - produced by the layer of C10Stab.v only *)
 
 Section Api.
 Variable CS : Type.
@@ -65,8 +66,9 @@ Definition a_kfail (a : astate) (o : kout CS) : aout :=
 Definition a_call (P : kparams) (fc : fconf) (X : bytes) (a : astate) (n cap : N) (dir : directive) : aout :=
   let k := a_k a in
   let inp := tk n (dr (a_pos a) X) in
-  if andb (negb (is_init k)) (andb (k_appliedSI k) (a_null a)) then a_fail a AStability
-  else
+  (* ZSTD_checkBufferStability, input half: the caller presents its one array at the position it holds, which is what
+     the last call recorded; since fix 9a6b24a a recorded {NULL,0,0} (frame started by a wrapper, [a_null]) accepts the
+     first buffer the caller shows, so the check never refuses a call of these histories *)
     let o := kstep P fc k inp cap dir in
     match ko_ret o with
     | None => a_kfail a o
